@@ -646,8 +646,16 @@ func (po *PinOptions) Equals(po2 *PinOptions) bool {
 	}
 
 	for k, v := range po.Metadata {
-		v2 := po2.Metadata[k]
-		if k != "" && v != v2 {
+		v2, ok := po2.Metadata[k]
+		if k != "" && (!ok || v != v2) {
+			return false
+		}
+	}
+
+	// keys present only in po2 (i.e. removed from po)
+	for k := range po2.Metadata {
+		_, ok := po.Metadata[k]
+		if k != "" && !ok {
 			return false
 		}
 	}
